@@ -5,6 +5,9 @@
 //	cryptodrv sigs -seed S     ndjson cases on stdin ({"key":..,"sig":..} or {"build":[order]})
 //	                           -> one ndjson line per case with VerifyBytes under each instantiation
 //	cryptodrv keybase          one JSON job on stdin -> ndjson, one line per step and per probe
+//	                           backends: mem (keys.NewInMemory), leveldb (the same dbKeybase over a GoLevelDB
+//	                           that stays open), lazy (keys.New: LevelDB opened and closed by every call);
+//	                           keys listed in "secp" are secp256k1 keys (they enter as armors, op ArmorRaw)
 //
 // The keybase code prints to stdout when a decryption fails; the protocol therefore goes to the
 // original stdout while os.Stdout is pointed at stderr.
@@ -20,9 +23,11 @@ import (
 	"fmt"
 	"io/ioutil"
 	"os"
+	"reflect"
 	"sort"
 	"strings"
 	"sync"
+	"unsafe"
 
 	pc "github.com/pokt-network/posmint/crypto"
 	"github.com/pokt-network/posmint/crypto/keys"
@@ -250,12 +255,14 @@ type step struct {
 
 type kbJob struct {
 	Seed       int64             `json:"seed"`
-	Backend    string            `json:"backend"` // mem | lazy
+	Backend    string            `json:"backend"` // mem | leveldb | lazy
 	Passes     map[string]string `json:"passes"`
 	// optional: one binding of the passphrase names per behaviour (overrides Passes)
 	PassesBy   []map[string]string `json:"passes_by,omitempty"`
 	NKnown     int               `json:"nknown"`
 	NK         int               `json:"nk"`
+	// ids (among 1..NKnown) of the keys that are secp256k1 keys; all others are ed25519
+	Secp       []int             `json:"secp,omitempty"`
 	Probe      bool              `json:"probe"`
 	Behaviours [][]step          `json:"behaviours"`
 	Workers    int               `json:"workers"`
@@ -318,6 +325,12 @@ func (w *world) address(b, id int) sdk.Address {
 	// a key that does not exist yet: some address nobody has
 	h := secret(w.job.Seed, fmt.Sprintf("bogus/%d", b), id)
 	return sdk.Address(h[:20])
+}
+
+// sameKey: priv is the raw key id (when the client knows it)
+func (w *world) sameKey(id int, priv pc.PrivateKey) bool {
+	r, ok := w.raw[id]
+	return !ok || bytes.Equal(r.RawBytes(), priv.RawBytes())
 }
 
 func (w *world) list() ([]int, bool) {
@@ -403,6 +416,10 @@ func (w *world) run(b int, beh []step) (outs []stepOut) {
 			case "ImportObj":
 				var kp keys.KeyPair
 				var rawb [64]byte
+				if _, isEd := w.raw[l.K].(pc.Ed25519PrivateKey); !isEd {
+					fmt.Fprintf(os.Stderr, "cryptodrv: ImportObj of key %d, which is not an ed25519 key\n", l.K)
+					os.Exit(3)
+				}
 				copy(rawb[:], w.raw[l.K].RawBytes())
 				kp, err = w.kb.ImportPrivateKeyObject(rawb, pass(l.P))
 				if err == nil {
@@ -415,6 +432,15 @@ func (w *world) run(b int, beh []step) (outs []stepOut) {
 				if err == nil {
 					o.Key = w.idOf(kp.GetAddress())
 					o.Checks["address_preserved_by_export_import"] = bytes.Equal(kp.GetAddress(), w.addr[l.A.K])
+				}
+			case "ArmorRaw":
+				// the client encrypts a raw key it holds, as another keybase / wallet would export it
+				var armor string
+				armor, err = mintkey.EncryptArmorPrivKey(w.raw[l.K], pass(l.P), "made elsewhere")
+				if err == nil {
+					o.Key = l.K
+					w.armors[fmt.Sprintf("%d|%s", l.K, l.P)] = armor
+					o.Checks["armor_not_empty"] = armor != ""
 				}
 			case "ImportJunk":
 				some := ""
@@ -435,6 +461,16 @@ func (w *world) run(b int, beh []step) (outs []stepOut) {
 					o.Key = l.K
 					w.armors[fmt.Sprintf("%d|%s", l.K, l.Q)] = armor
 					o.Checks["armor_not_empty"] = armor != ""
+					// the abstraction of an armor: which key it holds, and which passphrase opens it
+					priv, derr := mintkey.UnarmorDecryptPrivKey(armor, pass(l.Q))
+					o.Checks["export_opens_under_its_encryption_passphrase"] = derr == nil
+					if derr == nil {
+						o.Checks["export_holds_the_exported_key"] = bytes.Equal(priv.PublicKey().Address(), w.addr[l.K]) && w.sameKey(l.K, priv)
+					}
+					if pass(l.P) != pass(l.Q) {
+						_, derr = mintkey.UnarmorDecryptPrivKey(armor, pass(l.P))
+						o.Checks["export_closed_under_the_storage_passphrase"] = derr != nil
+					}
 				}
 			case "ExportObj":
 				var priv pc.PrivateKey
@@ -514,6 +550,26 @@ func (w *world) run(b int, beh []step) (outs []stepOut) {
 	return outs
 }
 
+// levelDBKeybase: the dbKeybase over a GoLevelDB that stays open for the whole behaviour. The package only
+// exports the in-memory constructor and the lazy wrapper; the database of an in-memory keybase is replaced
+// through reflection (the same dbKeybase code, another tm-db backend).
+func levelDBKeybase(name, dir string) keys.Keybase {
+	db, err := sdk.NewLevelDB(name, dir)
+	if err != nil {
+		fmt.Fprintf(os.Stderr, "cryptodrv: cannot open LevelDB: %v\n", err)
+		os.Exit(3)
+	}
+	kb := keys.NewInMemory()
+	v := reflect.ValueOf(kb)
+	if v.Kind() != reflect.Ptr || v.Elem().Kind() != reflect.Struct || !v.Elem().FieldByName("db").IsValid() {
+		fmt.Fprintf(os.Stderr, "cryptodrv: keys.NewInMemory() is no longer a pointer to a struct with a field db (%T)\n", kb)
+		os.Exit(3)
+	}
+	f := v.Elem().FieldByName("db")
+	reflect.NewAt(f.Type(), unsafe.Pointer(f.UnsafeAddr())).Elem().Set(reflect.ValueOf(db))
+	return kb
+}
+
 func keybaseMode() {
 	raw, err := ioutil.ReadAll(os.Stdin)
 	if err != nil {
@@ -532,6 +588,14 @@ func keybaseMode() {
 		panic(err)
 	}
 	defer os.RemoveAll(tmp)
+	isSecp := map[int]bool{}
+	for _, k := range job.Secp {
+		if k < 1 || k > job.NKnown {
+			fmt.Fprintf(os.Stderr, "cryptodrv: secp key %d is not among the client's keys 1..%d\n", k, job.NKnown)
+			os.Exit(3)
+		}
+		isSecp[k] = true
+	}
 	results := make([][]stepOut, len(job.Behaviours))
 	var wg sync.WaitGroup
 	work := make(chan int, len(job.Behaviours))
@@ -542,13 +606,23 @@ func keybaseMode() {
 			for b := range work {
 				w := &world{job: &job, addr: map[int]sdk.Address{}, raw: map[int]pc.PrivateKey{}, armors: map[string]string{}}
 				for k := 1; k <= job.NKnown; k++ {
-					w.raw[k] = edKey(job.Seed, fmt.Sprintf("kb/%d", b), k)
+					if isSecp[k] {
+						w.raw[k] = secpKey(job.Seed, fmt.Sprintf("kb/%d", b), k)
+					} else {
+						w.raw[k] = edKey(job.Seed, fmt.Sprintf("kb/%d", b), k)
+					}
 					w.addr[k] = sdk.Address(w.raw[k].PublicKey().Address())
 				}
-				if job.Backend == "lazy" {
+				switch job.Backend {
+				case "lazy":
 					w.kb = keys.New(fmt.Sprintf("kb%d", b), fmt.Sprintf("%s/b%d", tmp, b))
-				} else {
+				case "leveldb":
+					w.kb = levelDBKeybase(fmt.Sprintf("kb%d", b), fmt.Sprintf("%s/b%d", tmp, b))
+				case "mem":
 					w.kb = keys.NewInMemory()
+				default:
+					fmt.Fprintf(os.Stderr, "cryptodrv: unknown backend %q\n", job.Backend)
+					os.Exit(3)
 				}
 				results[b] = w.run(b, job.Behaviours[b])
 				w.kb.CloseDB()
